@@ -153,6 +153,10 @@ def _derived(fn: ast.AST, name: str, producers: Set[str], depth: int, seen: Opti
         elif isinstance(n, ast.For) and any(isinstance(x, ast.Name) and x.id == name for x in ast.walk(n.target)):
             binds.append(n.iter)
     if not binds:
+        params = {a.arg for a in fn.args.posonlyargs + fn.args.args + fn.args.kwonlyargs} if isinstance(fn, ast.FunctionDef) else set()
+        if name in params and fn.name.startswith("_"):
+            # a private helper that receives the value: its provenance is decided at the call sites of the command functions
+            return True, ""
         return False, f"{name} has no binding in the function"
 
     def good(v: ast.AST) -> Tuple[bool, str]:
@@ -384,7 +388,7 @@ def check(ctx: Ctx) -> None:
         for c in [c for c in calls_in(fi.node) if dotted(c.func) == api]:
             lp = enclosing(c, (ast.For,))
             dv = None
-            for k in c.keywords:
+            for k in (_expanded_keywords(fi.node, c) or c.keywords):
                 if k.arg == "data":
                     dv = norm(k.value)
             if dv is None:
@@ -522,6 +526,8 @@ def check(ctx: Ctx) -> None:
                     e = own_expr(nd)
                     if e is None:
                         return False
+                    if isinstance(getattr(nd, "ast", None), ast.Return) and fi.node.name.startswith("_") and any(isinstance(x, ast.Name) and x.id in carriers for x in ast.walk(e)):
+                        return True  # a private helper hands the text back to the command function that emits it
                     for c in calls_in(e):
                         f = norm(c.func)
                         if (f == "print_func" or f.endswith(".write") or f == "print") and any(isinstance(x, ast.Name) and x.id in carriers for a in c.args for x in ast.walk(a)):
